@@ -1,6 +1,7 @@
 /-
   M: implementation model of the text argument iterator mptcore/meta/iterator_string.c
-  (`mpt_iterator_string(val, sep)`) for numeric element conversion (`mpt_value_convert(value(), 'd', …)`).
+  (`mpt_iterator_string(val, sep)`) for numeric element conversion (`mpt_value_convert(value(), t, …)`,
+  `t` = 'd' or 'u').
 
   The C object keeps the text in one buffer and marks the end of a converted element by storing a NUL at
   `restore` (the overwritten character is kept in `save`).  The model keeps the text unpatched and records
@@ -19,10 +20,9 @@ structure StrIt where
   deriving Repr, DecidableEq
 
 /-- result of converting the current element -/
-inductive ConvRes where
-  | none0                 -- the converter returned 0: "consumed", nothing was written
+inductive ConvRes (α : Type) where
   | err (e : Err)
-  | ok (v : Rat)
+  | ok (v : α)
   deriving Repr, DecidableEq
 
 namespace StrIt
@@ -34,24 +34,28 @@ def create (val : Option (List Char)) (sep : Option (List Char)) : StrIt :=
   | some v => { sep := sep.getD " ,;/:".toList, text := v, pos := some 0, endNull := false,
                 restore := none, patched := false }
 
-/-- `parseConvertElement(conv, 'd', dest)` -/
-def conv (s : StrIt) : StrIt × ConvRes :=
+/-- `parseValue`: NULL after the last element -/
+def hasValue (s : StrIt) : Bool := s.pos.isSome
+
+/-- `parseConvertElement(conv, t, dest)` for a number type scanned by `scan` (`mpt_cdouble`, `mpt_cuint32`):
+    `mpt_convert_string` skips white space first; nothing converted is MissingData -/
+def convWith {α : Type} (scan : List Char → Scan α) (s : StrIt) : StrIt × ConvRes α :=
   match s.pos with
-  | none => (s, .none0)
+  | none => (s, .err .MissingData)
   | some p =>
     let txt := s.text.drop p
     if txt.isEmpty then ({ s with restore := none, patched := false }, .err .MissingData)
     else
-      -- `mpt_convert_string`: skip white space, then `mpt_cdouble`
-      match cdouble (dropSpace txt) with
+      match scan (dropSpace txt) with
       | .err e => ({ s with patched := false }, .err e)
-      | .zero =>
-        -- len = 0: the element is "terminated" at its own first character
-        ({ s with restore := some p, patched := true }, .none0)
+      | .zero => ({ s with patched := false }, .err .MissingData)
       | .ok v rest =>
         let r := p + (txt.length - rest.length)
         if s.text.length ≤ r then ({ s with restore := none, patched := false }, .ok v)
         else ({ s with restore := some r, patched := true }, .ok v)
+
+/-- conversion to `double` -/
+def conv (s : StrIt) : StrIt × ConvRes Rat := convWith cdouble s
 
 /-- `parseAdvance` -/
 def advance (s : StrIt) : StrIt × AdvRes :=
@@ -64,18 +68,12 @@ def advance (s : StrIt) : StrIt × AdvRes :=
         | some r => ({ s with pos := some (r + 1), restore := none, patched := false }, .more)
         | none => ({ s with pos := none }, .last)      -- no NUL inside the remaining text
 
-/-- `parseReset` (fix in /repo: the end position is set again) -/
+/-- `parseReset` -/
 def reset (s : StrIt) : StrIt × Int :=
   ({ s with pos := some 0, endNull := false, restore := none, patched := false }, 1)
 
-/-- `parseClone`: a new iterator over the C string at `restore` (or at `val`) -/
-def clone (s : StrIt) : StrIt :=
-  match s.restore with
-  | some r => create (some (if s.patched then [] else s.text.drop r)) (some s.sep)
-  | none =>
-    match s.pos with
-    | some p => create (some (s.text.drop p)) (some s.sep)
-    | none => create none (some s.sep)
+/-- `parseClone`: a copy of the whole text with the same position and element mark -/
+def clone (s : StrIt) : StrIt := s
 
 end StrIt
 end Mpt.Iter
